@@ -60,6 +60,14 @@ def plan(tier, seed, kf_ids):
             fams = [(0, 0), (0, 1)] if s == "U" else ([] if q else [(0, 1)])
             for fa, fb in fams:
                 jobs.append(A.mul128("c01", s, f, fa, fb, timeout=3000))
+    # 64/128-bit multiplication: every a against constant power-of-two factors (the full 128-bit product is Engine M's / the families')
+    for s, w in c.FAMILIES:
+        if w < 64:
+            continue
+        for f in ([1, w // 2, w - 1, w] if q else [0, 1, 2, w // 2, w - 2, w - 1, w]):
+            # (a negative factor other than the minimum has a dense bit pattern: -1 ulp did not finish in 9 min)
+            for (k, neg) in [(0, False), (w // 2, False)] + ([(w - 2, False), (w - 1, True)] if s == "I" else [(w - 1, False)]):
+                jobs.append(A.mul_pow2("c01", s, w, f, k, neg, timeout=900))
     return {
         "engine_m": ["mul128", "widen"],
         "feature": "c01",
